@@ -124,41 +124,7 @@ def run(ctx):
         ctx.ob("R-FLOW", "SignedObject::verify:args", ok,
                "signature is verified over encode_verify(self.signed_attrs) under the embedded certificate's key",
                where=b.loc, detail=detail)
-        # digest context is fed from the content: every update of the context started under self.digest_algorithm takes
-        # an element of an iteration over self.content — as a for_each closure or as a loop, whatever the locals are called
-        START = r"\w+⟵DigestAlgorithm::start\(self\.digest_algorithm\)"
-        ok = False
-        detail = []
-        ups = [c for c in b.calls() if c.res == "crypto::digest::Context::update"]
-        for c in ups:                                   # loop form
-            ua = K.arg_renders(c)
-            detail.append({"update": ua})
-            if re.match("^%s$" % START, ua[0]) and re.match(r"^Iterator::next\(\w+⟵(OctetString::iter\()?self\.content\)?\)↓Some\.0$", ua[1]):
-                ok = True
-            else:
-                ok = False
-                break
-        if not ups:
-            for c in [c for c in b.calls() if c.name == "for_each"]:
-                a = K.arg_terms(c)
-                d = [render(x) for x in a]
-                if re.match(r"^(OctetString::iter\()?self\.content\)?$", render(a[0])) and a[1][0] == "closure":
-                    cb = f.body(a[1][1])
-                    caps = [render(x) for x in a[1][2]]
-                    if cb is not None:
-                        cups = [c2 for c2 in cb.calls() if c2.res == "crypto::digest::Context::update"]
-                        if len(cups) == 1 and cb.arg_count == 2:
-                            ua = K.arg_renders(cups[0])
-                            ok = ua[0].startswith("^") and ua[1] == (cb.local_name(2) or "?") and \
-                                len(caps) == 1 and re.match("^%s$" % START, caps[0]) is not None
-                            d = {"for_each": d, "update": ua, "captures": caps}
-                detail.append(d)
-        # and the finished context is that same context
-        fin = [K.arg_renders(c)[0] for c in b.calls() if c.res == "crypto::digest::Context::finish"]
-        ok = ok and len(fin) == 1 and re.match("^%s$" % START, fin[0]) is not None
-        ctx.ob("R-FLOW", "SignedObject::verify:digest-input", ok,
-               "the digest compared with message_digest is computed over self.content under self.digest_algorithm",
-               where=b.loc, detail=detail)
+        K.check_digest_input(ctx, f, b, "SignedObject::verify:digest-input")
     K.check_public_key_verify_format_guard(ctx, f)
 
     # ---- C02.c DER SET OF header for every size --------------------------------
